@@ -21,10 +21,12 @@ impl Parser for GitCommitParser {
     /// Admittedly a somewhat naive implementation.
     /// We're going to get _something_ to work, before we polish it off.
     fn parse(&self, source: &[char]) -> Vec<harper_core::Token> {
-        // Locate the first `#`
+        // Locate the first comment line: a `#` at the start of a line. (A `#` elsewhere, such as
+        // in `Fix #12`, is part of the message.)
         let end = source
             .iter()
-            .position(|c| *c == '#')
+            .enumerate()
+            .position(|(i, c)| *c == '#' && (i == 0 || source[i - 1] == '\n'))
             .unwrap_or(source.len());
 
         self.inner.parse(&source[0..end])
